@@ -141,6 +141,24 @@ pub fn run(rest: &str) -> String {
                 Err(e) => format!("Err {} | peak={} largest={}", de_err(&e), peak, largest),
             }
         }
+        "deep" | "deepx" => {
+            // nested arrays decoded in a CHILD process on a thread with a fixed stack: a stack overflow aborts the
+            // child, not the harness.  deep <depth> <stack KiB>
+            let depth = t.next().to_string();
+            let stack = t.next().to_string();
+            let exe = std::env::current_exe().unwrap();
+            match std::process::Command::new(exe).arg("--child-deep").arg(&depth).arg(&stack).output() {
+                Ok(o) => {
+                    let out = String::from_utf8_lossy(&o.stdout).trim().to_string();
+                    match o.status.code() {
+                        Some(0) => format!("exit=0 {}", out),
+                        Some(c) => format!("exit={}", c),
+                        None => "killed-by-signal".to_string(),
+                    }
+                }
+                Err(_) => "HARNESS-SPAWN-FAILED".into(),
+            }
+        }
         "dect" => {
             let k = t.u64() as usize;
             let bytes = t.bytes();
@@ -152,4 +170,31 @@ pub fn run(rest: &str) -> String {
         }
         _ => "HARNESS-BAD-OP".to_string(),
     }
+}
+
+/// child mode: decode `depth` nested strict-array headers (count 1) on a thread with `stack_kib` KiB of stack
+pub fn child_deep(depth: usize, stack_kib: usize) {
+    let mut bytes = Vec::with_capacity(depth * 5);
+    for _ in 0..depth {
+        bytes.extend_from_slice(&[0x0a, 0, 0, 0, 1]);
+    }
+    let h = std::thread::Builder::new().stack_size(stack_kib * 1024).spawn(move || {
+        let mut c = Cursor::new(bytes);
+        match rml_amf0::deserialize(&mut c) {
+            Ok(v) => {
+                // measure the depth without recursion
+                let mut d = 0usize;
+                let mut cur = v.into_iter().next();
+                while let Some(Amf0Value::StrictArray(mut inner)) = cur {
+                    d += 1;
+                    cur = if inner.is_empty() { None } else { Some(inner.remove(0)) };
+                }
+                println!("Ok depth={}", d);
+                // leak the value: dropping a deeply nested value recurses as well, which is not the decoder under test
+                std::process::exit(0);
+            }
+            Err(e) => println!("Err {}", de_err(&e)),
+        }
+    }).unwrap();
+    let _ = h.join();
 }
